@@ -21,7 +21,7 @@ from .c16 import install_fmt, output_of, merge_lits
 FILE = "prog.scm"
 
 
-def cli_probe(chk):
+def cli_probe(chk, at_line=None):
     """native: the real binary on a good file, a failing file and a missing file"""
     exe = chk.ws.repl_binary()
     d = tempfile.mkdtemp(prefix="ruschm-verif-cli-")
@@ -42,6 +42,13 @@ def cli_probe(chk):
         # the failing form is on line 3, indented by six blanks: LINE = 3, COL beyond the indentation
         if p.returncode == 0 or not m or int(m.group(1)) != 3 or not (6 < int(m.group(2)) <= 13) or plain.count("\n") != 1 or p.stdout:
             return True, "a file whose third form fails: exit status %d, stdout %r, stderr %r" % (p.returncode, p.stdout[:40], err[:160])
+        # the failing form on a chosen line (the solver's LINE when replaying; 256 and 512 always: a status is kept modulo 256)
+        for n in sorted(set([256, 512] + ([at_line] if isinstance(at_line, int) and 1 < at_line <= 100000 else []))):
+            far = os.path.join(d, "line%d.scm" % n)
+            open(far, "w").write("(import (scheme base))" + "\n" * (n - 1) + "(car 5)\n")
+            p = subprocess.run([exe, far], capture_output=True, timeout=30)
+            if p.returncode == 0 or (":%d:" % n).encode() not in p.stderr or p.stdout:
+                return True, "a file whose form on line %d fails: exit status %d, stdout %r, stderr %r" % (n, p.returncode, p.stdout[:40], p.stderr[:120])
         p = subprocess.run([exe, os.path.join(d, "missing.scm")], capture_output=True, timeout=30)
         if p.returncode == 0 or not p.stderr:
             return True, "a missing file: exit status %d, stderr %r" % (p.returncode, p.stderr[:80])
@@ -73,7 +80,7 @@ def spec_main(chk):
     ex.deadline = chk.t0 + budget
     unit = "main() (argument vector, eval_file, terminal colours and exit stubbed)"
     chk.region_ns = {}
-    replay = lambda vals: cli_probe(chk)
+    replay = lambda vals: cli_probe(chk, vals.get("line"))
     err_obj = Lazy("error::ErrorData", "the_error_data")
 
     def elem_hook(ex_, val, ty):
@@ -172,7 +179,8 @@ def spec_main(chk):
                 located = failed[-1]["located"]
                 post.append(z3.BoolVal(len(exits) == 1 and rv is None and all(w == "stderr" for w in streams) and bool(streams)))
                 if exits:
-                    post.append(exits[0]["code"] != 0)
+                    # what the parent process sees is the low 8 bits of the code
+                    post.append(exits[0]["code"] % 256 != 0)
                 # the diagnostic: FILE [:LINE:COL] ... MESSAGE, one line
                 text_ok = bool(out) and out[0][0] == "lit" and out[0][1].startswith(FILE)
                 flat = "".join(p[1] if p[0] == "lit" else "\x00" for p in out)
